@@ -449,6 +449,11 @@ fn d_constraint(x: &Sx) -> Constraint<'static> {
     }
 }
 fn d_query(x: &Sx) -> Query<'static> {
+    d_query_mode(x, 0)
+}
+/// mode 0: constraints attached with with_constraint(); 1: with constrain(); 2: first half with
+/// with_constraint(), the rest with constrain().  Sub-queries are built the same way.
+fn d_query_mode(x: &Sx, mode: i64) -> Query<'static> {
     let name = if x.nth(0).list().is_empty() { None } else { Some(d_str(x.nth(0).nth(0))) };
     let qt = match x.nth(1).int() {
         0 => QueryType::Select,
@@ -468,11 +473,17 @@ fn d_query(x: &Sx) -> Query<'static> {
     if x.nth(2).int() != 0 {
         q = q.with_qualifier(QueryQualifier::Optional);
     }
-    for c in x.nth(5).list() {
-        q = q.with_constraint(d_constraint(c));
+    let cs = x.nth(5).list();
+    for (i, c) in cs.iter().enumerate() {
+        let c = d_constraint(c);
+        if mode == 1 || (mode == 2 && i >= cs.len() / 2) {
+            q.constrain(c);
+        } else {
+            q = q.with_constraint(c);
+        }
     }
     for s in x.nth(7).list() {
-        q = q.with_subquery(d_query(s));
+        q = q.with_subquery(d_query_mode(s, mode));
     }
     q
 }
@@ -645,6 +656,38 @@ impl Ctx {
             (l(vec![a(0), req.nth(1).clone(), dts, res]), outs, ok && printed.is_some())
         } else if kind == 3 {
             self.exec_collection(req)
+        } else if kind == 5 {
+            // a parsed query extended through constrain()
+            let s = req.nth(1).string();
+            let extra = req.nth(2);
+            let mut printed: Option<String> = None;
+            let r = guard(|| match Query::parse(&s) {
+                Ok((mut q, _)) => {
+                    for c in extra.list() {
+                        q.constrain(d_constraint(c));
+                    }
+                    let o0 = l(vec![a(0), e_query(&q)]);
+                    let mut pr = None;
+                    let (o1, o2) = print_and_back(&q, &mut pr);
+                    (o0, o1, o2, pr)
+                }
+                Err(_) => (l(vec![a(1)]), na(), na(), None),
+            });
+            let outs = match r {
+                Some((o0, o1, o2, pr)) => {
+                    printed = pr;
+                    vec![o0, o1, o2]
+                }
+                None => vec![panic_sx(), na(), na()],
+            };
+            let mut res_extra = Vec::new();
+            regexes_of(extra, &mut res_extra);
+            let mut texts: Vec<&str> = vec![&s];
+            if let Some(p) = &printed {
+                texts.push(p);
+            }
+            let (dts, res) = tables(&texts, &res_extra);
+            (l(vec![a(5), req.nth(1).clone(), dts, res, extra.clone()]), outs, printed.is_some())
         } else if kind == 2 {
             // deep nesting: run in a child process, a stack overflow aborts the process
             let n = req.nth(1).int() as usize;
@@ -674,9 +717,11 @@ impl Ctx {
             (req.clone(), vec![obs], true)
         } else {
             let tree = req.nth(1);
+            // kind 1: with_constraint(); kind 4: (4 tree mode) through constrain()
+            let mode = if kind == 4 { req.nth(2).int() } else { 0 };
             let mut printed: Option<String> = None;
             let r = guard(|| {
-                let q = d_query(tree);
+                let q = d_query_mode(tree, mode);
                 let o0 = e_query(&q);
                 let mut pr = None;
                 let (o1, o2) = print_and_back(&q, &mut pr);
@@ -693,7 +738,7 @@ impl Ctx {
             regexes_of(tree, &mut extra);
             let texts: Vec<&str> = printed.iter().map(|s| s.as_str()).collect();
             let (dts, res) = tables(&texts, &extra);
-            (l(vec![a(1), tree.clone(), dts, res]), outs, printed.is_some())
+            (l(vec![a(kind), tree.clone(), dts, res]), outs, printed.is_some())
         }
     }
 }
@@ -1381,10 +1426,30 @@ pub fn generate(out: &mut Out, tier: &str, seed: u64) {
     for i in 0..nb {
         let wild = i % 4 == 3;
         let t = t_query(&mut rng, 2, true, wild);
+        if i % 3 == 0 {
+            // the same tree attached through constrain() (all / second half of the constraints)
+            emit(out, l(vec![a(4), t.clone(), a(1 + (i / 3 % 2) as i64)]), "built_query_constrain");
+        }
         emit(out, l(vec![a(1), t]), if wild { "built_query_wild" } else { "built_query" });
+    }
+    // parsed queries narrowed through constrain()
+    let parsed = [
+        "SELECT ANNOTATION ?a",
+        "SELECT ANNOTATION ?a WHERE ID \"x\";",
+        "@top SELECT TEXT ?t WHERE @c1 RESOURCE AS METADATA \"r\" OFFSET 1 -2; DATA s k != 5;",
+        "SELECT ANNOTATION ?a WHERE [ ID x; OR ID y; ] { SELECT OPTIONAL DATA ?d WHERE ANNOTATION ?a; | SELECT TEXT ?t }",
+        "SELECT DATA ?d { SELECT KEY ?k }",
+        "SELECT RESOURCE",
+    ];
+    let np = if thorough { 6000 } else { 600 };
+    for i in 0..np {
+        let qtext = if i % 2 == 0 { parsed[(i / 2) % parsed.len()].to_string() } else { select_text(&mut rng, 1, false) };
+        let n = 1 + rng.below(3);
+        let extra: Vec<Sx> = (0..n).map(|_| t_constraint(&mut rng, 1, false)).collect();
+        emit(out, l(vec![a(5), text(&qtext), l(extra)]), "parsed_query_constrain");
     }
 }
 
-pub const RULE: &str = "Texts: every keyword (46) after every query head (12) with every operand tail (17); numeric literals with signs {'', -, +, --, -+} and 0..22 digits (and range boundaries) in every numeric position (VALUE/DATA operators, list items, LIMIT, OFFSET cursors, assignments); every operator x every value surface; every identifier of a 38-string pool (reserved words, ?-prefixed, quotes, backslashes, separators, multi-byte) quoted and unquoted in every argument position; seeded grammar-derived queries (SELECT/ADD/DELETE, attributes, qualifiers, offsets, unions, sub-queries, varied white space incl. multi-byte) with their truncation at every character and single-character substitutions/insertions/deletions from a 27-character special set (braces, brackets, pipe, quote, backslash, ?, @, ASCII and multi-byte white space, NUL, non-BMP); exhaustive position x character edits of fixed queries; random strings over keywords and special characters; four long queries with 2-, 3- and 4-byte characters shifted by 0..3 ASCII characters, each with its truncation at every character, every single-character deletion and insertions of quote/separator/multi-byte characters at every position; unterminated quoted strings and separator-free tokens of 26..70 bytes over six multi-byte fill patterns x shift 0..3 behind seven argument positions (error paths that cut the remaining text by byte count). Built queries: random trees over all 21 parser-level constraint variants, all data operators, nested unions and sub-queries, built with Query::new/with_constraint/with_subquery, a quarter of them with strings from the pool (known classes). Collection constraints (Annotations, Data, Keys, Resources, TextSelections with Handles over a fixed store with two resources and two data sets whose handle numbers coincide): every sequence of up to 3 items x qualifier x depth, printed text compared with the model's printing of what the store says about each item, and the parse of the printed text compared with the union of the items' constraints. Each case: outcome class and tree of Query::parse, TryFrom, printed text, and tree + text of parsing/printing the printed text. Non-trivial: parsed (or built), printed and parsed back. distinct = distinct request lines.";
+pub const RULE: &str = "Texts: every keyword (46) after every query head (12) with every operand tail (17); numeric literals with signs {'', -, +, --, -+} and 0..22 digits (and range boundaries) in every numeric position (VALUE/DATA operators, list items, LIMIT, OFFSET cursors, assignments); every operator x every value surface; every identifier of a 38-string pool (reserved words, ?-prefixed, quotes, backslashes, separators, multi-byte) quoted and unquoted in every argument position; seeded grammar-derived queries (SELECT/ADD/DELETE, attributes, qualifiers, offsets, unions, sub-queries, varied white space incl. multi-byte) with their truncation at every character and single-character substitutions/insertions/deletions from a 27-character special set (braces, brackets, pipe, quote, backslash, ?, @, ASCII and multi-byte white space, NUL, non-BMP); exhaustive position x character edits of fixed queries; random strings over keywords and special characters; four long queries with 2-, 3- and 4-byte characters shifted by 0..3 ASCII characters, each with its truncation at every character, every single-character deletion and insertions of quote/separator/multi-byte characters at every position; unterminated quoted strings and separator-free tokens of 26..70 bytes over six multi-byte fill patterns x shift 0..3 behind seven argument positions (error paths that cut the remaining text by byte count). Built queries: random trees over all 21 parser-level constraint variants, all data operators, nested unions and sub-queries, built with Query::new/with_constraint/with_subquery, a third of them also with all or half of the constraints (sub-queries included) attached through constrain(), parsed queries (fixed and grammar-derived) narrowed by 1..3 constrain() calls, a quarter of the built trees with strings from the pool (known classes). Collection constraints (Annotations, Data, Keys, Resources, TextSelections with Handles over a fixed store with two resources and two data sets whose handle numbers coincide): every sequence of up to 3 items x qualifier x depth, printed text compared with the model's printing of what the store says about each item, and the parse of the printed text compared with the union of the items' constraints. Each case: outcome class and tree of Query::parse, TryFrom, printed text, and tree + text of parsing/printing the printed text. Non-trivial: parsed (or built), printed and parsed back. distinct = distinct request lines.";
 
 pub const EXHAUSTIVE: bool = false;
